@@ -8,7 +8,7 @@
    and the warnings the property speaks about, or the exception class.
 
    Executable definitions only; lemmas are in Proofs/SufficiencyProofs.v. *)
-From Coq Require Import ZArith QArith List Bool.
+From Coq Require Import ZArith QArith List Bool Orders Sorting.Mergesort.
 Import ListNotations.
 Open Scope Z_scope.
 
@@ -194,8 +194,10 @@ Definition count_if {A} (f : A -> bool) (l : list A) : Z := Z.of_nat (length (fi
 Definition month_under (p : params) (present : row -> bool) (rows : list row) (m : Z) : bool :=
   let g := filter (fun r => r_month r =? m) rows in
   p_cov_den p * count_if present g <? p_cov_num p * Z.of_nat (length g).
+(* groupby(index.month) only produces groups for months that occur; an empty group compares 0 < 0 = false *)
+Definition months12 : list Z := [1; 2; 3; 4; 5; 6; 7; 8; 9; 10; 11; 12].
 Definition monthly_bad (p : params) (present : row -> bool) (rows : list row) : bool :=
-  existsb (month_under p present rows) (map r_month rows).
+  existsb (month_under p present rows) months12.
 
 (* not is_reporting and n > MAX  or  n < MIN   (NaN compares false both ways) *)
 Definition length_bad (p : params) (is_rep : bool) (total : option Z) : bool :=
@@ -210,12 +212,19 @@ Definition has_negative (rows : list row) : bool :=
 (* extreme values: observed > median + 3 * (q75 - q25), linear-interpolated quantiles over the non-null values *)
 Definition obs_values (rows : list row) : list Q :=
   flat_map (fun r => match r_obs r with Some q => [q] | None => [] end) rows.
-Fixpoint insert_sorted (x : Q) (l : list Q) : list Q :=
-  match l with
-  | [] => [x]
-  | h :: t => if Qle_bool x h then x :: l else h :: insert_sorted x t
-  end.
-Definition sort_values (l : list Q) : list Q := fold_right insert_sorted [] l.
+(* sorting: the standard library's merge sort (8760 hourly values must sort in n log n) *)
+Module QOrder <: TotalLeBool.
+  Definition t := Q.
+  Definition leb (a b : Q) : bool := Qle_bool a b.
+  Lemma leb_total : forall a b, leb a b = true \/ leb b a = true.
+  Proof.
+    intros a b. unfold leb, Qle_bool.
+    destruct (Z.leb_spec (Qnum a * QDen b) (Qnum b * QDen a)) as [H | H]; [left; reflexivity | right].
+    apply Z.leb_le. apply Z.lt_le_incl. exact H.
+  Qed.
+End QOrder.
+Module QSort := Sort QOrder.
+Definition sort_values (l : list Q) : list Q := QSort.sort l.
 Definition nthQ (l : list Q) (i : Z) : Q := nth (Z.to_nat i) l (0 # 1)%Q.
 Definition quantile (s : list Q) (num den : Z) : Q :=
   let n := Z.of_nat (length s) in
